@@ -228,3 +228,33 @@ Proof. exact conc_event_confinement. Qed.
 Theorem C18_source_segment_layout :
   forallb snd conc_source_shape = true.
 Proof. exact source_segment_layout. Qed.
+
+
+Theorem C18_conc_join_announced :
+  forall (cf : ccfg) (es : list ev) (t : tid) (ok : bool) (hint : user) (c : conn) (id : N),
+    let s := cstate_after cf es in
+    let r := cstep cf s (ERun t ok hint) in
+    In (OAck c id A_JOIN) (snd r) ->
+    exists (k : task) (ch : chan) (o : oid) (n : user) (created : bool),
+      In (t, k) (tasks s) /\
+      t_conn k = Some c /\
+      In n (members (objs (cg (fst r)) o)) /\
+      (forall (u : user) (c' : conn),
+       In u (members (objs (cg (fst r)) o)) ->
+       In c' (reg (cg s) u) -> c' <> c -> In (OEvent c' K_JOINED ch n created) (snd r)).
+Proof. exact conc_join_announced. Qed.
+
+Theorem C18_conc_refused_join_is_silent :
+  forall (cf : ccfg) (es : list ev) (t : tid) (ok : bool) (hint : user) 
+      (c : conn) (id reason : N) (k : task),
+    let s := cstate_after cf es in
+    let r := cstep cf s (ERun t ok hint) in
+    tlookup t (tasks s) = Some k ->
+    t_conn k = Some c ->
+    (exists (ch : chan) (ob : option user), t_pc k = PStart (RJoin ch ob id)) \/
+    (exists (ch : chan) (o : oid) (ob : option user), t_pc k = PJoinWait ch o ob id) ->
+    snd r = [OErr c id reason] \/ snd r = [OClose c reason] ->
+    (forall o' : oid, members (objs (cg (fst r)) o') = members (objs (cg s) o')) /\
+    (forall u : user, idx (cg (fst r)) u = idx (cg s) u) /\
+    (forall ch' : chan, cmap (cg (fst r)) ch' = cmap (cg s) ch').
+Proof. exact conc_refused_join_is_silent. Qed.
